@@ -91,8 +91,8 @@ def walkFwd (d : Bytes) (bs last : Nat) : Nat → Nat → List Part × Option Na
       match scanFwd blk 0 with
       | some i => ([⟨bof, 0, i + 1⟩], some (fileOffsetAtBlockOffsetIndex bof bs i))
       | none =>
-        let (ps, r) := walkFwd d bs last fuel (bof + 1)
-        (⟨bof, 0, blk.length⟩ :: ps, r)
+        let w := walkFwd d bs last fuel (bof + 1)
+        (⟨bof, 0, blk.length⟩ :: w.1, w.2)
 
 /-- does the line (list of parts) store block `bo`? (`Line::stores_blockoffset`) -/
 def storesBo (ps : List Part) (bo : Nat) : Bool := ps.any (·.bo == bo)
@@ -122,6 +122,72 @@ def lineFoEnd (bs : Nat) (ps : List Part) : Nat :=
   | some p => fileOffsetAtBlockOffsetIndex p.bo bs p.biEnd - 1
   | none => 0
 
+/-- part B1 of `find_line`: scan the block holding `fo` forward for newline B.
+Returns `(foundB, foNlB, biMEnd)`; end of file counts as newline B. -/
+def partB1 (d : Bytes) (bs last fo : Nat) : Bool × Nat × Nat :=
+  let boM := blockOffsetAtFileOffset fo bs
+  let biM := blockIndexAtFileOffset fo bs
+  let blkM := blockAt d bs boM
+  let biStop := blkM.length
+  match scanFwd blkM biM with
+  | some i => (true, fileOffsetAtBlockOffsetIndex boM bs i, i)
+  | none =>
+    if boM = last then (true, fileOffsetAtBlockOffsetIndex boM bs (biStop - 1), biStop - 1)
+    else (false, fo, biStop - 1)
+
+/-- part B1 of `find_line_in_block`: as `partB1`, but as coded `bi_middle_end`
+stays at `bi_middle` when newline B is not in the block. -/
+def partB1IB (d : Bytes) (bs last fo : Nat) : Bool × Nat × Nat :=
+  let boM := blockOffsetAtFileOffset fo bs
+  let biM := blockIndexAtFileOffset fo bs
+  let blkM := blockAt d bs boM
+  let biStop := blkM.length
+  match scanFwd blkM biM with
+  | some i => (true, fileOffsetAtBlockOffsetIndex boM bs i, i)
+  | none =>
+    if boM = last then (true, fileOffsetAtBlockOffsetIndex boM bs (biStop - 1), biStop - 1)
+    else (false, fo, biM)
+
+/-- part B2 of `find_line`: when B1 did not find newline B, walk the following
+blocks. Returns `(tailParts, foNlB)`. -/
+def partB2 (d : Bytes) (bs last boM : Nat) (foundB : Bool) (foNlB : Nat) : List Part × Nat :=
+  if foundB then ([], foNlB)
+  else
+    let w := walkFwd d bs last (last + 1 - boM) (boM + 1)
+    match w.2 with
+    | some f => (w.1, f)
+    | none =>
+      -- newline B is end of file: last block fully scanned
+      let blkL := blockAt d bs last
+      (w.1, fileOffsetAtBlockOffsetIndex last bs (blkL.length - 1))
+
+/-- parts A0, A2a, A2b (+ A4/A5 via `walkBwd`) of `find_line`: find newline A
+before `fo` and assemble the line from the middle part and `tailParts`. -/
+def partA (d : Bytes) (bs fo biMEnd : Nat) (tailParts : List Part) (foNlB : Nat) : Res :=
+  let boM := blockOffsetAtFileOffset fo bs
+  let biM := blockIndexAtFileOffset fo bs
+  let blkM := blockAt d bs boM
+  if fo = 0 then
+    -- A0
+    .found (foNlB + 1) (⟨blockOffsetAtFileOffset 0 bs, blockIndexAtFileOffset 0 bs, biMEnd + 1⟩ :: tailParts)
+  else
+    let start := fo - 1
+    let bof := blockOffsetAtFileOffset start bs
+    if bof = boM then
+      -- A2a
+      let biAt := blockIndexAtFileOffset start bs
+      match scanBwd blkM biAt with
+      | some i => .found (lineFoEnd bs (⟨boM, i + 1, biMEnd + 1⟩ :: tailParts) + 1) (⟨boM, i + 1, biMEnd + 1⟩ :: tailParts)
+      | none =>
+        let line := ⟨boM, 0, biMEnd + 1⟩ :: tailParts
+        let line' := if bof ≠ 0 then walkBwd d bs bof (bof - 1) biM line else line
+        .found (lineFoEnd bs line' + 1) line'
+    else
+      -- A2b
+      let line := ⟨boM, 0, biMEnd + 1⟩ :: tailParts
+      let line' := walkBwd d bs (bof + 1) bof biM line
+      .found (lineFoEnd bs line' + 1) line'
+
 /-- `LineReader::find_line(fo)` on a reader with empty caches. -/
 def findLine (bs : Nat) (d : Bytes) (fo : Nat) : Res :=
   let filesz := d.length
@@ -129,47 +195,37 @@ def findLine (bs : Nat) (d : Bytes) (fo : Nat) : Res :=
   else
     let last := blockOffsetLast filesz bs
     let boM := blockOffsetAtFileOffset fo bs
-    let biM := blockIndexAtFileOffset fo bs
-    let blkM := blockAt d bs boM
-    let biStop := blkM.length
-    -- B1
-    let (foundB, foNlB, biMEnd) : Bool × Nat × Nat :=
-      match scanFwd blkM biM with
-      | some i => (true, fileOffsetAtBlockOffsetIndex boM bs i, i)
-      | none =>
-        if boM = last then (true, fileOffsetAtBlockOffsetIndex boM bs (biStop - 1), biStop - 1)
-        else (false, fo, biStop - 1)
-    -- B2
-    let (tailParts, foNlB) : List Part × Nat :=
-      if foundB then ([], foNlB)
-      else
-        let (ps, r) := walkFwd d bs last (last + 1 - boM) (boM + 1)
-        match r with
-        | some f => (ps, f)
-        | none =>
-          -- newline B is end of file: last block fully scanned
-          let blkL := blockAt d bs last
-          (ps, fileOffsetAtBlockOffsetIndex last bs (blkL.length - 1))
-    if fo = 0 then
-      -- A0
-      .found (foNlB + 1) (⟨blockOffsetAtFileOffset 0 bs, blockIndexAtFileOffset 0 bs, biMEnd + 1⟩ :: tailParts)
+    -- B1: (foundB, foNlB, biMEnd)
+    let b1 := partB1 d bs last fo
+    -- B2: (tailParts, foNlB)
+    let b2 := partB2 d bs last boM b1.1 b1.2.1
+    -- A0 / A2a / A2b / A4 / A5
+    partA d bs fo b1.2.2 b2.1 b2.2
+
+/-- parts A0 / A2a of `find_line_in_block`: newline A must be in the same block
+(or the block is the first one), else give up. -/
+def partAIB (d : Bytes) (bs fo : Nat) (foundB : Bool) (foNlB biMEnd : Nat) : ResIB :=
+  let boM := blockOffsetAtFileOffset fo bs
+  let blkM := blockAt d bs boM
+  let partialLine := !foundB
+  if fo = 0 then
+    let line := [⟨blockOffsetAtFileOffset 0 bs, blockIndexAtFileOffset 0 bs, biMEnd + 1⟩]
+    if partialLine then .part line else .found (foNlB + 1) line
+  else
+    let start := fo - 1
+    let bof := blockOffsetAtFileOffset start bs
+    if bof ≠ boM then .done
     else
-      let start := fo - 1
-      let bof := blockOffsetAtFileOffset start bs
-      if bof = boM then
-        -- A2a
-        let biAt := blockIndexAtFileOffset start bs
-        match scanBwd blkM biAt with
-        | some i => .found (lineFoEnd bs (⟨boM, i + 1, biMEnd + 1⟩ :: tailParts) + 1) (⟨boM, i + 1, biMEnd + 1⟩ :: tailParts)
-        | none =>
-          let line := ⟨boM, 0, biMEnd + 1⟩ :: tailParts
-          let line' := if bof ≠ 0 then walkBwd d bs bof (bof - 1) biM line else line
-          .found (lineFoEnd bs line' + 1) line'
-      else
-        -- A2b
-        let line := ⟨boM, 0, biMEnd + 1⟩ :: tailParts
-        let line' := walkBwd d bs (bof + 1) bof biM line
-        .found (lineFoEnd bs line' + 1) line'
+      let biAt := blockIndexAtFileOffset start bs
+      match scanBwd blkM biAt with
+      | some i =>
+        let line := [⟨boM, i + 1, biMEnd + 1⟩]
+        if partialLine then .part line else .found (foNlB + 1) line
+      | none =>
+        if bof = 0 then
+          let line := [⟨boM, 0, biMEnd + 1⟩]
+          if partialLine then .part line else .found (foNlB + 1) line
+        else .done
 
 /-- `LineReader::find_line_in_block(fo)` on a reader with empty caches. -/
 def findLineInBlock (bs : Nat) (d : Bytes) (fo : Nat) : ResIB :=
@@ -177,35 +233,9 @@ def findLineInBlock (bs : Nat) (d : Bytes) (fo : Nat) : ResIB :=
   if filesz = 0 ∨ fo ≥ filesz then .done
   else
     let last := blockOffsetLast filesz bs
-    let boM := blockOffsetAtFileOffset fo bs
-    let biM := blockIndexAtFileOffset fo bs
-    let blkM := blockAt d bs boM
-    let biStop := blkM.length
-    let (foundB, foNlB, biMEnd) : Bool × Nat × Nat :=
-      match scanFwd blkM biM with
-      | some i => (true, fileOffsetAtBlockOffsetIndex boM bs i, i)
-      | none =>
-        if boM = last then (true, fileOffsetAtBlockOffsetIndex boM bs (biStop - 1), biStop - 1)
-        else (false, fo, biM)   -- as coded: `bi_middle_end` stays at `bi_middle`
-    let partialLine := !foundB
-    if fo = 0 then
-      let line := [⟨blockOffsetAtFileOffset 0 bs, blockIndexAtFileOffset 0 bs, biMEnd + 1⟩]
-      if partialLine then .part line else .found (foNlB + 1) line
-    else
-      let start := fo - 1
-      let bof := blockOffsetAtFileOffset start bs
-      if bof ≠ boM then .done
-      else
-        let biAt := blockIndexAtFileOffset start bs
-        match scanBwd blkM biAt with
-        | some i =>
-          let line := [⟨boM, i + 1, biMEnd + 1⟩]
-          if partialLine then .part line else .found (foNlB + 1) line
-        | none =>
-          if bof = 0 then
-            let line := [⟨boM, 0, biMEnd + 1⟩]
-            if partialLine then .part line else .found (foNlB + 1) line
-          else .done
+    -- B1: (foundB, foNlB, biMEnd)
+    let b1 := partB1IB d bs last fo
+    partAIB d bs fo b1.1 b1.2.1 b1.2.2
 
 /-! ### rendering for the driver -/
 
